@@ -215,6 +215,12 @@ package goose
 
 //@ props C02 C07
 
+// callExpr dispatches on the builtins: under C02 as well, so that the look-alike preconditions of
+// lenExpr/capExpr/makeExpr are obligations of that property at the dispatching calls.
+//@ func (Ctx).callExpr
+//@   may_reject
+//@   noframe
+//@   use ast
 //@ func (Ctx).isBuiltin
 //@   ensures [true exactly for the identifier `name` denoting the predeclared object] result <==> (typeis(e, *ast.Ident) && e.(*ast.Ident).Name == name && univ(ctx.info, e))
 //@   modifies nothing
